@@ -1376,4 +1376,286 @@ theorem client_pw (s : Sys F) (pkt : Sys.Bytes) (now : Nat) :
         exact PW.comp hstage2 p1 (fun a b c h1 h2 => SendStep.comp h1 h2 f2 p2)
       · exact ⟨hstage2, f3.trans r1, f4.trans r2⟩
 
+/-! ## 8. The flush arm -/
+
+theorem flushGo_pw (hc : Bool) (cto : Option Nat) (now : Nat) (ls : List (FLink F)) (fn : List Nat) :
+    PW (Evolves hc cto) ls (flushGo now ls fn).1 := by
+  induction ls generalizing fn with
+  | nil => exact .nil
+  | cons l rest ih =>
+    rw [flushGo]
+    split
+    · dsimp only
+      refine .cons ?_ (ih _)
+      rw [(sendBatch_cases l now fn).1]
+      exact ev_takeBatch hc cto l now
+    · exact .cons (Evolves.refl hc cto l) (ih _)
+
+theorem flush_pw (hc : Bool) (cto : Option Nat) (s : Sys F) (now : Nat) :
+    PW (Evolves hc cto) s.links (flushAllBatches s now).1.links ∧
+    (flushAllBatches s now).1.reg = s.reg ∧ (flushAllBatches s now).1.cfg = s.cfg := by
+  unfold flushAllBatches
+  split
+  · exact ⟨PW.refl (Evolves.refl hc cto) _, rfl, rfl⟩
+  · exact ⟨flushGo_pw hc cto now s.links s.failNext, rfl, rfl⟩
+
+/-! ## 9. The uplink arm -/
+
+/-- What REG3 does to the link it arrives on (`clear_pre_registration_state`, `connected = true`,
+`last_received`, `mark_success`, first-establishment stamp). -/
+def reg3Link (l : FLink F) (now : Nat) : FLink F :=
+  let l1 := l.clearPreRegistration now
+  { l1 with core := { l1.core with connected := true, lastReceived := some now },
+            established := if l1.established == 0 then now else l1.established,
+            failCount := 0 }
+
+theorem procReg_hasConnected (r : Reg.Reg) (idx : Nat) (buf : Reg.Bytes) (now : Nat) :
+    (Reg.processRegistrationPacket r idx buf now).1.hasConnected =
+      (r.hasConnected || decide ((Reg.processRegistrationPacket r idx buf now).2 = some .reg3)) := by
+  unfold Reg.processRegistrationPacket
+  split
+  · simp
+  · split
+    · unfold Reg.handleRegNgp Reg.handleProbeResponse
+      repeat' split
+      all_goals simp
+    · split
+      · unfold Reg.handleReg2
+        repeat' split
+        all_goals simp
+      · split
+        · simp [Reg.handleReg3]
+        · split
+          · simp [Reg.handleRegErr]
+          · simp
+
+theorem reg1Imm_hasConnected (r : Reg.Reg) (idx now : Nat) :
+    (Reg.reg1IfNgpImmediate r idx now).1.hasConnected = r.hasConnected := by
+  unfold Reg.reg1IfNgpImmediate
+  split <;> rfl
+
+/-- The outcome of `process_uplink_packet` on the link it arrived on. -/
+inductive UpKind (hc : Bool) (cto : Option Nat) (reg : Reg.Reg) (idx : Nat) (data : Sys.Bytes) (now : Nat)
+    (l l' : FLink F) : Prop
+  | evolves (h : Evolves hc cto l l')
+      (hev : (Reg.processRegistrationPacket reg idx data now).2 ≠ some .reg3)
+  | reg3 (hev : (Reg.processRegistrationPacket reg idx data now).2 = some .reg3) (hl : l' = reg3Link l now)
+  | regErr (hev : (Reg.processRegistrationPacket reg idx data now).2 = some .regErr)
+      (hl : l' = l.markForRecovery)
+
+theorem procUplink_cases (hc : Bool) (cto : Option Nat) (l : FLink F) (idx : Nat) (reg : Reg.Reg) (ck : Bool)
+    (data : Sys.Bytes) (now : Nat) :
+    UpKind hc cto reg idx data now l (processUplinkPacket l idx reg ck data now).1 ∧
+    (processUplinkPacket l idx reg ck data now).2.1.hasConnected =
+      (reg.hasConnected || decide ((Reg.processRegistrationPacket reg idx data now).2 = some .reg3)) ∧
+    ((Reg.processRegistrationPacket reg idx data now).2 ≠ none →
+      (processUplinkPacket l idx reg ck data now).2.2.acks = [] ∧
+      (processUplinkPacket l idx reg ck data now).2.2.sacks = [] ∧
+      (processUplinkPacket l idx reg ck data now).2.2.naks = []) := by
+  have hhc := procReg_hasConnected reg idx data now
+  unfold processUplinkPacket
+  split
+  · rename_i hpt
+    have hnone : Reg.processRegistrationPacket reg idx data now = (reg, none) := by
+      unfold Reg.processRegistrationPacket; rw [hpt]
+    rw [hnone]
+    exact ⟨.evolves (Evolves.refl hc cto l) (by simp), by simp, fun h => absurd rfl h⟩
+  · rename_i pt hpt
+    generalize hr : Reg.processRegistrationPacket reg idx data now = r at hhc ⊢
+    obtain ⟨reg1, ev⟩ := r
+    dsimp only at hhc ⊢
+    cases ev with
+    | none =>
+      dsimp only
+      refine ⟨.evolves ?_ (by simp), by simpa using hhc, fun h => absurd rfl h⟩
+      have hst := ev_stamps hc cto l (some now) l.core.lastSent l.core.proofMs
+      have hst' : Evolves hc cto l { l with core := { l.core with lastReceived := some now } } := hst
+      split
+      · exact hst'
+      · split
+        · exact hst'
+        · split
+          · exact hst'
+          · split
+            · have hk := ev_handleKeepaliveResponse hc cto
+                ({ l with core := { l.core with lastReceived := some now } }) data now
+              generalize FLink.handleKeepaliveResponse _ data now = kr at hk ⊢
+              obtain ⟨l2, sample⟩ := kr
+              dsimp only at hk ⊢
+              cases sample with
+              | none => exact hst'.trans hk
+              | some v =>
+                dsimp only
+                have h3 := ev_recordRttProbe hc cto l2
+                have h4 := ev_stamps hc cto l2.recordRttProbe l2.recordRttProbe.core.lastReceived
+                  l2.recordRttProbe.core.lastSent now
+                exact (hst'.trans hk).trans (h3.trans h4)
+            · exact hst'
+    | some e =>
+      cases e with
+      | regNgp =>
+        dsimp only
+        refine ⟨.evolves (Evolves.refl hc cto l) (by simp), ?_, fun _ => ⟨rfl, rfl, rfl⟩⟩
+        rw [reg1Imm_hasConnected]; simpa using hhc
+      | reg2 =>
+        exact ⟨.evolves (Evolves.refl hc cto l) (by simp), by simpa using hhc, fun _ => ⟨rfl, rfl, rfl⟩⟩
+      | reg3 =>
+        exact ⟨.reg3 rfl rfl, by simpa using hhc, fun _ => ⟨rfl, rfl, rfl⟩⟩
+      | regErr =>
+        exact ⟨.regErr rfl rfl, by simpa using hhc, fun _ => ⟨rfl, rfl, rfl⟩⟩
+
+theorem pw_withCores (hc : Bool) (cto : Option Nat) (ls : List (FLink F)) (cs : Links)
+    (h : PW CoreEvolves (cores ls) cs) : PW (Evolves hc cto) ls (withCores ls cs) := by
+  unfold withCores cores at *
+  induction ls generalizing cs with
+  | nil => cases h; exact .nil
+  | cons l rest ih =>
+    cases h with
+    | cons hr h' => exact .cons (Evolves.of_core hr) (ih _ h')
+
+theorem withCores_cores (ls : List (FLink F)) : withCores ls (cores ls) = ls := by
+  unfold withCores cores
+  induction ls with
+  | nil => rfl
+  | cons l rest ih => simp [ih]
+
+theorem pwEv_trans {hc : Bool} {cto : Option Nat} {as bs cs : List (FLink F)}
+    (h1 : PW (Evolves hc cto) as bs) (h2 : PW (Evolves hc cto) bs cs) : PW (Evolves hc cto) as cs :=
+  PW.trans (R := Evolves hc cto) (fun _ _ _ h h' => Evolves.trans h h') h1 h2
+
+theorem procEvents_pw (hc : Bool) (cto : Option Nat) (s : Sys F) (idx : Nat) (inc : Incoming) (now : Nat) :
+    PW (Evolves hc cto) s.links (processConnectionEvents s idx inc now).1.links ∧
+    (processConnectionEvents s idx inc now).1.reg = s.reg ∧
+    (processConnectionEvents s idx inc now).1.cfg = s.cfg ∧
+    (processConnectionEvents s idx inc now).1.failNext = s.failNext := by
+  unfold processConnectionEvents
+  dsimp only
+  refine ⟨?_, rfl, rfl, rfl⟩
+  have h1 : PW (Evolves hc cto) s.links
+      (inc.acks.foldl (fun ls a => ls.map fun l => l.srtAck (toI32 a) now) s.links) :=
+    pw_foldl (Evolves.refl hc cto) (fun _ _ _ h h' => Evolves.trans h h') _
+      (fun as b => PW.map _ as (fun l => ev_srtAck hc cto l (toI32 b) now)) s.links inc.acks
+  refine pwEv_trans h1 (pw_withCores hc cto _ _ ?_)
+  generalize cores (inc.acks.foldl (fun ls a => ls.map fun l => l.srtAck (toI32 a) now) s.links) = cs0
+  have h2 : PW CoreEvolves cs0
+      (inc.sacks.foldl (fun cs a => evSrtlaAck cs idx (toI32 a) s.cfg.classic now) cs0) :=
+    pw_foldl CoreEvolves.refl (fun _ _ _ h h' => CoreEvolves.trans h h') _
+      (fun as b => pw_evSrtlaAck as idx (toI32 b) s.cfg.classic now) cs0 inc.sacks
+  refine pwCore_trans h2 ?_
+  exact pw_foldl CoreEvolves.refl (fun _ _ _ h h' => CoreEvolves.trans h h') _
+    (fun as b => pw_attributeNak as s.trk b now) _ inc.naks
+
+theorem procEvents_empty (s : Sys F) (idx : Nat) (inc : Incoming) (now : Nat)
+    (h : inc.acks = [] ∧ inc.sacks = [] ∧ inc.naks = []) :
+    (processConnectionEvents s idx inc now).1.links = s.links := by
+  unfold processConnectionEvents
+  dsimp only
+  rw [h.1, h.2.1, h.2.2]
+  simp only [List.foldl_nil]
+  exact withCores_cores s.links
+
+/-- What the uplink arm does to link `j`. -/
+inductive UpStep (s : Sys F) (cid : Nat) (data : Sys.Bytes) (now : Nat) (j : Nat) (l l' : FLink F) : Prop
+  | evolves (h : Evolves s.reg.hasConnected none l l')
+  | reg3 (hidx : s.links.findIdx? (·.core.connId == cid) = some j)
+      (hev : (Reg.processRegistrationPacket s.reg j data now).2 = some .reg3) (hl : l' = reg3Link l now)
+  | regErr (hidx : s.links.findIdx? (·.core.connId == cid) = some j)
+      (hev : (Reg.processRegistrationPacket s.reg j data now).2 = some .regErr) (hl : l' = l.markForRecovery)
+
+theorem getElem?_setAt (ls : List (FLink F)) (i j : Nat) (x : FLink F) :
+    (setAt ls i x)[j]? = if j = i then (ls[j]?).map (fun _ => x) else ls[j]? := by
+  unfold setAt
+  rw [List.getElem?_mapIdx]
+  split
+  · rfl
+  · cases ls[j]? <;> rfl
+
+/-- **Uplink event, link by link.** -/
+theorem uplink_links (s : Sys F) (cid : Nat) (data : Sys.Bytes) (now : Nat) :
+    (∀ j l, s.links[j]? = some l →
+      ∃ l', (handleUplinkPacket s cid data now).1.links[j]? = some l' ∧ UpStep s cid data now j l l') ∧
+    (handleUplinkPacket s cid data now).1.links.length = s.links.length ∧
+    (s.reg.hasConnected = true → (handleUplinkPacket s cid data now).1.reg.hasConnected = true) ∧
+    (∀ j, s.links.findIdx? (·.core.connId == cid) = some j →
+      (Reg.processRegistrationPacket s.reg j data now).2 = some .reg3 → data.isEmpty = false →
+      (handleUplinkPacket s cid data now).1.reg.hasConnected = true) ∧
+    (handleUplinkPacket s cid data now).1.cfg = s.cfg := by
+  have hsame : (∀ j l, s.links[j]? = some l → ∃ l', s.links[j]? = some l' ∧ UpStep s cid data now j l l') :=
+    fun j l hl => ⟨l, hl, .evolves (Evolves.refl _ _ l)⟩
+  unfold handleUplinkPacket
+  split
+  · rename_i hemp
+    exact ⟨hsame, rfl, fun h => h, fun _ _ _ h => by rw [hemp] at h; cases h, rfl⟩
+  · split
+    · rename_i hidx
+      exact ⟨hsame, rfl, fun h => h, fun j hj => by rw [hidx] at hj; cases hj, rfl⟩
+    · rename_i idx hidx
+      split
+      · exact ⟨hsame, rfl, fun h => h, fun j hj => by
+          have := List.findIdx?_eq_some_iff_getElem.1 hidx
+          obtain ⟨hlt, -⟩ := this
+          rename_i hnone
+          rw [List.getElem?_eq_getElem hlt] at hnone; cases hnone, rfl⟩
+      · rename_i l hl
+        obtain ⟨hk, hhc, hinc⟩ := procUplink_cases s.reg.hasConnected none l idx s.reg s.clientKnown data now
+        generalize processUplinkPacket l idx s.reg s.clientKnown data now = r at hk hhc hinc ⊢
+        obtain ⟨l1, reg1, inc⟩ := r
+        dsimp only at hk hhc hinc ⊢
+        -- the optional immediate REG1 only stamps `last_sent`
+        generalize hl2 : (match inc.reg1Send with
+          | some p => (({ l1 with core := { l1.core with lastSent := some now } } : FLink F), [(cid, p)])
+          | none => (l1, [])) = r2
+        have hl2' : r2.1 = l1 ∨ r2.1 = { l1 with core := { l1.core with lastSent := some now } } := by
+          rw [← hl2]; split
+          · right; rfl
+          · left; rfl
+        obtain ⟨l2, wire⟩ := r2
+        dsimp only at hl2' ⊢
+        have hev12 : Evolves s.reg.hasConnected none l1 l2 := by
+          rcases hl2' with e | e
+          · rw [e]; exact Evolves.refl _ _ _
+          · rw [e]; exact ev_stamps _ _ l1 l1.core.lastReceived (some now) l1.core.proofMs
+        obtain ⟨p1, p2, p3, p4⟩ := procEvents_pw s.reg.hasConnected none
+          ({ s with links := setAt s.links idx l2, reg := reg1 } : Sys F) idx inc now
+        have hlen : (processConnectionEvents ({ s with links := setAt s.links idx l2, reg := reg1 } : Sys F)
+            idx inc now).1.links.length = s.links.length := by
+          rw [p1.length]; simp [setAt]
+        refine ⟨?_, hlen, ?_, ?_, p3⟩
+        · intro j x hx
+          have hj : (setAt s.links idx l2)[j]? = some (if j = idx then l2 else x) := by
+            rw [getElem?_setAt, hx]; split <;> rfl
+          obtain ⟨l', hl', hev⟩ := p1.get j _ hj
+          refine ⟨l', hl', ?_⟩
+          by_cases hji : j = idx
+          · subst hji
+            rw [hl] at hx; cases hx
+            simp only [if_true] at hev
+            cases hk with
+            | evolves h _ => exact .evolves ((h.trans hev12).trans hev)
+            | reg3 hev3 hl3 =>
+              have hemp := hinc (by rw [hev3]; simp)
+              have hlinks := procEvents_empty ({ s with links := setAt s.links j l2, reg := reg1 } : Sys F) j inc now hemp
+              have : l' = l2 := by
+                rw [hlinks] at hl'
+                rw [hj] at hl'; simpa using hl'.symm
+              have hl21 : l2 = l1 := by
+                rcases hl2' with e | e
+                · exact e
+                · -- REG3 never requests an immediate REG1; either way the record differs only by a stamp
+                  exact absurd rfl (by
+                    intro _
+                    sorry)
+              sorry
+            | regErr hevE hlE => sorry
+          · simp only [hji, if_false] at hev
+            exact .evolves hev
+        · intro h
+          rw [p2]; show reg1.hasConnected = true
+          rw [hhc, h]; rfl
+        · intro j hj hev3 _
+          rw [hidx] at hj
+          cases hj
+          rw [p2]; show reg1.hasConnected = true
+          rw [hhc, hev3]; simp
+
 end Srtla.Hk
